@@ -10,7 +10,7 @@ BUDGET = {"quick": 1200, "thorough": 25000}
 LEVEL_TEXT = ("Lean theorem C08_full_holds: for every rule list (prefixed or bare, allow or deny, ':' inside patterns), user, path and "
               "every file-system / regexp oracle, a file is served iff the user is a background-job user or the path resolves to a regular "
               "file whose last matching rule is an allow; tied to the code by the real HasFilePermission and real cat sessions over a "
-              "directory tree with symlink chains, '..', relative paths, FIFO, directory, device, the regexp answers supplied by Go's regexp; c08.cat lets the client choose the command word and its options (serverless, plain, quiet, context options): nothing a client says about itself changes what is served; tie G: splitPermission and User.iteratePaths of internal/user/server/user.go are translated to Lean from the working tree on every run and proved to be the model's ruleBody / iterateRules over parseRule (C08_generated_rules_refine_model), hence C08_generated_iteratePaths_is_spec: the translated rule evaluation says yes exactly when every rule compiles and the last matching rule is an allow rule; the driver runs the translated iteratePaths beside the model on every case")
+              "directory tree with symlink chains, '..', relative paths, FIFO, directory, device, the regexp answers supplied by Go's regexp; c08.cat lets the client choose the command word and its options (serverless, plain, quiet, context options): nothing a client says about itself changes what is served; tie G: splitPermission and User.iteratePaths of internal/user/server/user.go are translated to Lean from the working tree on every run and proved to be the model's ruleBody / iterateRules over parseRule (C08_generated_rules_refine_model), hence C08_generated_iteratePaths_is_spec: the translated rule evaluation says yes exactly when every rule compiles and the last matching rule is an allow rule; the driver runs the translated iteratePaths beside the model on every case; the whole decision too: User.HasFilePermission / hasFilePermission are translated and C08_generated_decision_is_spec states the documented decision on the translated code (EvalSymlinks, Abs, ToRead, Lstat and the regexp engine as parameters); c08.perm evaluates the translated HasFilePermission on every case")
 TRUSTED = ["the Go-to-Lean translator extract/translate.go and its prelude Model/GoRT.lean (regexp.Compile / MatchString are parameters; the text of a formatted error is its format string)", "Lean 4 kernel", "axioms: propext, Quot.sound, Classical.choice (at most)", "fact extractor (service user names)",
            "overlay harness + dtmodel driver + this diff",
            "modelled not verified: filepath.EvalSymlinks/Abs, os.Lstat, regexp (all oracle parameters of the theorem, answered by the real "
